@@ -422,19 +422,17 @@ func (acl *ACL) AuthorizeConnection(conn *net.Conn, cmd []string, command intern
 
 		// 8. Check if readKeys are in IncludedReadKeys
 		if len(readKeys) > 0 && !slices.ContainsFunc(readKeys, func(key string) bool {
-			return slices.ContainsFunc(connection.User.IncludedReadKeys, func(readKeyGlob string) bool {
-				if acl.GlobPatterns[readKeyGlob].Match(key) {
-					return true
-				}
-				if !slices.Contains(notAllowed, fmt.Sprintf("%s~%s", "%R", key)) {
-					notAllowed = append(notAllowed, fmt.Sprintf("%s~%s", "%R", key))
-				}
-				return false
-			})
-		}) {
-			if len(notAllowed) > 0 {
-				return fmt.Errorf("not authorised to access the following read keys: %+v", notAllowed)
+			if slices.ContainsFunc(connection.User.IncludedReadKeys, func(readKeyGlob string) bool {
+				return acl.GlobPatterns[readKeyGlob].Match(key)
+			}) {
+				return true
 			}
+			if !slices.Contains(notAllowed, fmt.Sprintf("%s~%s", "%R", key)) {
+				notAllowed = append(notAllowed, fmt.Sprintf("%s~%s", "%R", key))
+			}
+			return false
+		}) {
+			return fmt.Errorf("not authorised to access the following read keys: %+v", notAllowed)
 		}
 
 		// 9. Check if write keys are in IncludedWriteKeys
